@@ -836,7 +836,7 @@ PROPERTIES["C05"] = {
     "all_harnesses": ["cnf_token_t0", "aiger_token_t0", "btor2_token_t0"],
     "groups": ["text_t0", "cnf_token_t0", "aiger_token_t0", "aiger_token_small", "btor2_token_t0", "btor2_token_wide", "cnf_parser_t2", "aiger_ascii_t2", "aiger_binary_t2", "btor2_parser_t2", "wcnf_parser_t2", "gcnf_parser_t2", "cnf_clause_lits_t1", "aiger_ascii_t3", "aiger_binary_t3"],
     "claim": "Panic/overflow/termination freedom per unit: every harness of the tokenizer and parser-control tiers is checked by CBMC with Rust's checked semantics (arithmetic overflow, slice bounds, unwrap/expect, debug assertions are verification conditions) and with unwinding assertions (every scanner loop exits within the window), from symbolic LineReader/parser states, so error-location arithmetic (position - line_start, count - 1, (I+1)*2, limit -= count) is covered for all values.",
-    "level_note": "Absence of overflow in the checked build implies the unchecked build computes the same values. Memory-allocation bounds are OUTSIDE: symbolic allocation sizes exhaust CBMC (the AIGER pre-allocation defect D6 was found by reading and fixed, no check reports it). Stack depth: no recursion in the parsers (not checked by the solver). T2 coverage: cnf next_clause/new, AIGER Header::parse/Parser::new/next_symbol; other control logic only at token level.",
+    "level_note": "Absence of overflow in the checked build implies the unchecked build computes the same values. Memory clause: AIGER Parser::parse's header-driven pre-allocation is decided with allocation-bound stubs for Vec::reserve/with_capacity (<= 2^16 elements for every header); allocations driven by counts in the BODY of an AIGER file and growth by push are outside (symbolic allocation sizes exhaust CBMC). Stack depth: no recursion in the parsers (not checked by the solver). T2 coverage: cnf/wcnf/gcnf next_clause/new, clause_lits, AIGER Header::parse/Parser::new/sections/transitions/next_symbol, BTOR2 next_line, solver-log dispatcher end; AIGER parse() as a whole is out of reach.",
     "functions": ["all token functions of the three format crates", "flussab::text::*", "cnf::Parser::{new,next_clause}", "aiger::{ascii,binary}::{Header::parse, Parser::new, next_symbol}"],
     "explanation": "Kani's default checks in every harness; dedicated assertions for line/column arithmetic.",
     "bounds_note": "token windows N bytes; parser states fully symbolic within their invariant",
@@ -882,14 +882,14 @@ PROPERTIES["C10"] = {
 
 PROPERTIES["C03"] = {
     "level": "other",
-    "groups": ["aiger_binary_rt", "btor2_rt", "writer_digits", "aiger_ascii_t2", "aiger_binary_t2", "btor2_parser_t2", "aiger_ascii_t3", "aiger_binary_t3", "aiger_ascii_doc", "aiger_binary_doc"],
-    "claim": "Round trip decided per entry and by composition, each link a SAT-based bounded model check of real code: (a) binary AIGER 7-bit delta encoding: write_binary_uint -> delta_code/binary_uint is the identity for every value < 2^RT_BITS with exact consumption; (b) BTOR2: every operator name the writer emits is a keyword the parser maps back to the same operator; every constant constructible through the validating TryFrom constructors is read back entirely by the matching constant token; (c) decimal numbers: the writer's integer text is the canonical decimal text of the value (C11 digits harnesses) and the parsers' number tokens return exactly the decimal value of a numeral (C06), so number o text o number = identity; (d) AIGER headers/symbols: the parser's limits do not reject what the writer can produce (T2 header_parse / next_symbol).",
-    "level_note": "PARTIAL: whole-line round trips (write_clause -> next_clause, AIGER latch/and-gate lines, BTOR2 Line::write_into -> next_line) were attempted and exhaust CBMC's memory (writer formatting + parser in one query), so line structure (separators, field order) is NOT covered by a solver query; it is covered only by the repository's own round-trip tests. The converse direction parse o write o parse is covered only at token level (leading zeros, -0).",
-    "functions": ["flussab_aiger::binary::Writer::write_binary_uint", "flussab_aiger::token::{delta_code, binary_uint}", "flussab_btor2::btor2::{BinaryOp,UnaryOp,TernaryOp}::name", "flussab_btor2::token::{node_token, required_*_constant}", "flussab_btor2::btor2::{BinaryConst,DecimalConst,HexConst}::try_from", "flussab::write::text::ascii_digits", "aiger Header::parse / next_symbol"],
-    "explanation": "see claim",
-    "bounds_note": "values < 2^RT_BITS (21 quick / 55 thorough); constants of <= 3 ASCII bytes; integer formatting for 8/16(/32)-bit types",
-    "outside": ["whole-line and whole-document round trips", "names/comments with arbitrary UTF-8", "64/128-bit integer formatting (itoap)"],
-    "assumptions": ["reader model R (C02)"],
+    "groups": ["aiger_binary_rt", "btor2_rt", "writer_digits", "aiger_ascii_t2", "aiger_binary_t2", "btor2_parser_t2"],
+    "claim": "Round trip decided by composition, each link a SAT-based bounded model check of real code. (T3) Token-level round trips: the REAL writer functions fill a ghost token queue (numbers, literal bytes, 7-bit coded numbers) and the REAL parser control code reads it back through script-mode token stubs; parsed value == written value and exact consumption for: AIGER ascii and binary headers (trailing zero fields), latches (three reset forms, implicit numbering), and gates (field order; binary: sorted inputs, delta coding against the implicit literal), literal/count lines, symbols (every section), comment; DIMACS cnf/wcnf/gcnf write_clause -> next_clause with the real clause_lits; AIGER writers against the format grammar (section order, two-pass justice encoding). (a) binary AIGER 7-bit coding: write_binary_uint -> delta_code/binary_uint identity for every value < 2^RT_BITS; (b) BTOR2: every operator name the writer emits is the keyword the parser maps back to the same operator; every constant constructible through the validating TryFrom constructors is read back entirely; (c) decimal numbers: canonical text (C11 digits) and exact number tokens (C06); (d) AIGER headers/symbols: the parser's limits do not reject what the writer can produce.",
+    "level_note": "PARTIAL. Token level, not byte level: byte-level writer+parser queries exhaust CBMC's memory, so the faithfulness of each token function on the rendered text is taken from its own T0 harness (C06/C07) and from canonical integer formatting (C11). Not covered by a solver query: DIMACS write_header (writeln! formatting), BTOR2 Line::write_into line structure, whole documents (write_aig -> parse did not finish), names/comments other than three fixed candidates, and parse o write o parse beyond token level.",
+    "functions": ["flussab_aiger::{ascii,binary}::Writer::{write_header, write_lit, write_latch, write_count, write_and_gate, write_symbol, write_comment, write_aig, write_ordered_aig, write_binary_uint}", "flussab_aiger::{ascii,binary}::{Header::parse, Parser::new, next_input, next_latch, next_output, next_justice_property_size, next_and_gate, next_symbol, comment}", "flussab_cnf::{cnf,wcnf,gcnf}::{write_clause, Parser::next_clause}", "flussab_cnf::token::clause_lits", "flussab_aiger::token::{delta_code, binary_uint}", "flussab_btor2::btor2::{BinaryOp,UnaryOp,TernaryOp}::name", "flussab_btor2::token::{node_token, required_*_constant}", "flussab_btor2::btor2::{BinaryConst,DecimalConst,HexConst}::try_from", "flussab::write::text::ascii_digits"],
+    "explanation": "T3: ghost token queue (harness/flussab/verif_q.rs) between the real writer and the real parser control code; streams in which two tokens would be read as one by the real maximal-munch scanners fail the harness (AMBIG), as does a queue that is not consumed exactly.",
+    "bounds_note": "u8 literals (u64 for the binary header), clauses of <= 2 (cnf) / <= 1 (wcnf, gcnf quick) literals, three candidate names, values < 2^RT_BITS (21 quick / 55 thorough) for the 7-bit coding; constants of <= 3 ASCII bytes",
+    "outside": ["DIMACS headers (writeln!)", "BTOR2 line structure", "whole documents", "arbitrary names/comments", "digit content of 32/64/128-bit integers (itoap)"],
+    "assumptions": ["reader model R (C02)", "token contracts (T0 harnesses of C06/C07)", "canonical decimal text (C11)"],
 }
 
 NOT_APPLICABLE = {
